@@ -40,40 +40,50 @@ def relabel_canon(stmts, f):
     return out
 
 
-def mapping_suite(ctx):
-    from opensquirrel.mapper import HardcodedMapper
-    from opensquirrel.mapper.mapping import Mapping
-
+def mapping_lists(ctx):
     n = ctx.pick(4, 5)
     lists = [list(l) for k in range(0, n + 1) for l in itertools.product(range(n + 1), repeat=k)]
     lists += [[-1, 0], [0, -1, 1], [1, 0, 5], [0, 0], [2, 1, 0, 3, 5, 4], list(range(11, -1, -1))]
+    return n, lists
+
+
+def mapping_suite(ctx):
+    n, lists = mapping_lists(ctx)
     reqs = [["mapping_ok", l] for l in lists]
     mres = model.call_many(reqs)
-    for l, (_, r) in zip(lists, mres):
-        case = {"mapping": l}
-        ctx.seen(case, len(l) > 0)
-        try:
-            Mapping(l)
-            im = True
-        except ValueError:
-            im = False
-        mv = str(r) == "true"
-        if im != mv:
-            ctx.disagree("mapping", case, f"impl {im} model {mv}")
-        want = sorted(l) == list(range(len(l)))
-        if im != want:
-            ctx.oracle_fail("mapping", case, f"Mapping({l}) accepted={im}, is a permutation={want}", im == mv)
-        if im:
-            for size in {len(l) - 1, len(l), len(l) + 1} - {-1}:
-                try:
-                    HardcodedMapper(size, Mapping(l))
-                    ok = True
-                except ValueError:
-                    ok = False
-                if ok != (size == len(l)):
-                    ctx.oracle_fail("mapping", {"mapping": l, "mapper_size": size}, f"Mapper size check: accepted={ok}", None)
+    for l, mr in zip(lists, mres):
+        check_mapping(ctx, l, mr)
     ctx.suite("mapping_lists", cases=len(lists), exhaustive=True, max_value=n, max_length=n)
     ctx.exhaustive = True
+
+
+def check_mapping(ctx, l, mr):
+    from opensquirrel.mapper import HardcodedMapper
+    from opensquirrel.mapper.mapping import Mapping
+
+    _, r = mr
+    case = {"mapping": l}
+    ctx.seen(case, len(l) > 0)
+    try:
+        Mapping(l)
+        im = True
+    except ValueError:
+        im = False
+    mv = str(r) == "true"
+    if im != mv:
+        ctx.disagree("mapping", case, f"impl {im} model {mv}")
+    want = sorted(l) == list(range(len(l)))
+    if im != want:
+        ctx.oracle_fail("mapping", case, f"Mapping({l}) accepted={im}, is a permutation={want}", im == mv)
+    if im:
+        for size in {len(l) - 1, len(l), len(l) + 1} - {-1}:
+            try:
+                HardcodedMapper(size, Mapping(l))
+                ok = True
+            except ValueError:
+                ok = False
+            if ok != (size == len(l)):
+                ctx.oracle_fail("mapping", {"mapping": l, "mapper_size": size}, f"Mapper size check: accepted={ok}", None)
 
 
 SEED_SPECS = {
@@ -239,9 +249,6 @@ def remap_suite(ctx):
 
 def refusal_suite(ctx):
     """shorter / longer mappings, uncovered qubits: refused without leaving the circuit partially mapped"""
-    from opensquirrel.mapper.mapping import Mapping
-    from opensquirrel.mapper.qubit_remapper import remap_ir
-
     rng = ctx.rng
     n_cases = 0
     for _ in range(ctx.pick(80, 800)):
@@ -258,36 +265,44 @@ def refusal_suite(ctx):
                 specs.insert(rng.randint(0, len(specs)), rng.choice([["measure", q, 0], ["reset", q]]))
         perm = list(range(k))
         rng.shuffle(perm)
-        c = gen.build_circuit(nq, 1, specs)
-        pre_ser = ser.ser_stmts(c.ir.statements)
-        pre = implrun.canon_post(c.ir.statements)
-        case = {"nq": nq, "nb": 1, "specs": specs, "perm": perm}
-        try:
-            remap_ir(c, Mapping(perm))
-            err = None
-        except Exception as e:  # noqa: BLE001
-            err = implrun.errkind(e)
-        post = implrun.canon_post(c.ir.statements)
-        (m, r), = model.call_many([["remap", nq, perm, pre_ser]])
-        merr, mpost = implrun.model_outcome(["map"], r)
+        check_refusal(ctx, {"nq": nq, "nb": 1, "specs": specs, "perm": perm})
         n_cases += 1
-        ctx.seen(case)
-        eq = (err is None) == (merr is None) and (mpost is None or not ser.struct_diff(post, mpost, 1e-12))
-        if not eq:
-            ctx.disagree("refusal", case, f"impl err={err} model err={merr}")
-        used = {q for s in specs for q in gen.spec_qubits(s)}
-        covered = all(q < k for q in used)
-        if k > nq:
-            if err is None:
-                ctx.oracle_fail("refusal", case, "mapping longer than the register accepted", eq)
-        elif not covered:
-            if err is None:
-                ctx.oracle_fail("refusal", case, "mapping not covering a used qubit accepted", eq)
-        elif err is not None:
-            ctx.oracle_fail("refusal", case, f"covering mapping refused ({err})", eq)
-        if err is not None and ser.struct_diff(post, pre, 0):
-            ctx.oracle_fail("refusal", case, "failed mapping left the circuit partially mapped", eq)
     ctx.suite("refusal", cases=n_cases)
+
+
+def check_refusal(ctx, case):
+    from opensquirrel.mapper.mapping import Mapping
+    from opensquirrel.mapper.qubit_remapper import remap_ir
+
+    nq, specs, perm = case["nq"], case["specs"], case["perm"]
+    k = len(perm)
+    c = gen.build_circuit(nq, 1, specs)
+    pre_ser = ser.ser_stmts(c.ir.statements)
+    pre = implrun.canon_post(c.ir.statements)
+    try:
+        remap_ir(c, Mapping(perm))
+        err = None
+    except Exception as e:  # noqa: BLE001
+        err = implrun.errkind(e)
+    post = implrun.canon_post(c.ir.statements)
+    (m, r), = model.call_many([["remap", nq, perm, pre_ser]])
+    merr, mpost = implrun.model_outcome(["map"], r)
+    ctx.seen(case)
+    eq = (err is None) == (merr is None) and (mpost is None or not ser.struct_diff(post, mpost, 1e-12))
+    if not eq:
+        ctx.disagree("refusal", case, f"impl err={err} model err={merr}")
+    used = {q for s in specs for q in gen.spec_qubits(s)}
+    covered = all(q < k for q in used)
+    if k > nq:
+        if err is None:
+            ctx.oracle_fail("refusal", case, "mapping longer than the register accepted", eq)
+    elif not covered:
+        if err is None:
+            ctx.oracle_fail("refusal", case, "mapping not covering a used qubit accepted", eq)
+    elif err is not None:
+        ctx.oracle_fail("refusal", case, f"covering mapping refused ({err})", eq)
+    if err is not None and ser.struct_diff(post, pre, 0):
+        ctx.oracle_fail("refusal", case, "failed mapping left the circuit partially mapped", eq)
 
 
 def run(ctx):
@@ -304,12 +319,22 @@ def run(ctx):
 
 
 def replay(ctx, payload):
-    case = payload.get("case") or (payload.get("first_disagreement") or {}).get("case")
-    if "specs" not in case:
-        return {"fails": payload.get("kind") == "oracle", "case": case}
-    it = remap_case(ctx, "replay", case["nq"], case["nb"], case["specs"], case["perm"], case.get("pre", ()))
-    if it is None:
-        return {"fails": False, "note": "mapping not constructible"}
-    mres = model.call_many([["remap", case["nq"], case["perm"], it[2]]])
-    check_remap(ctx, "replay", it, mres[0])
-    return {"oracle_failures": ctx.oracle_failures, "disagreements": ctx.disagreements, "fails": bool(ctx.oracle_failures)}
+    from harness import framework
+    from harness.props import sem_common
+
+    suite, case = framework.replay_target(payload)
+    if case is None:
+        return framework.replay_nothing(payload)
+    if sem_common.is_semantics(suite, case):
+        return sem_common.replay(ctx, case)
+    if "mapping" in case:
+        check_mapping(ctx, case["mapping"], model.call_many([["mapping_ok", case["mapping"]]])[0])
+    elif "pre" not in case:         # the refusal suite is the one without earlier passes in its records
+        check_refusal(ctx, case)
+    else:
+        it = remap_case(ctx, suite or "replay", case["nq"], case["nb"], case["specs"], case["perm"], case.get("pre", ()))
+        if it is None:
+            return {"fails": False, "note": "an earlier pass raised or the mapping is not constructible: nothing to check"}
+        mres = model.call_many([["remap", case["nq"], case["perm"], it[2]]])
+        check_remap(ctx, suite or "replay", it, mres[0])
+    return framework.replay_result(ctx)
